@@ -107,6 +107,14 @@ def compare_scenario(ctx, pid, scn, sr, inputs_list, concs, report):
         }
         if covering:
             n_cov += 1
+        if conc.halt.startswith("unsupported"):
+            # the input reaches an instruction of the EVM that is outside the model (BLOBHASH, BLOBBASEFEE, SELFDESTRUCT):
+            # what follows is unexplored, so the run must say so -- a stuck path covering the input
+            ctx.count("concrete:reaches-unmodelled-instruction")
+            if not undecided and not any(p.kind.startswith("stuck:") for _, p, _ in covering):
+                report("C02", "uncovered:unmodelled-instruction-not-reported",
+                       f"the input reaches the unmodelled instruction {conc.halt.split(':')[1]} but no stuck path reports it "
+                       f"(covering paths: {[p.kind for _, p, _ in covering]})", base_replay)
         for j, p, pe in covering:
             if p.kind.startswith("stuck:"):
                 ctx.count("covered-by-stuck")
@@ -187,6 +195,14 @@ def choose_inputs(ctx, scn, sr, n_random, pool):
 
     for _ in range(n_random):
         add(D.random_inputs(rng, scn, pool), "random")
+    # boundary of the documented balance assumption, every scenario: the caller / the executing account holds exactly
+    # 2^128 wei and every other account nothing (total supply still within the assumption)
+    base = D.random_inputs(rng, scn, pool)
+    accts = sorted(set(list(scn.contracts) + [0x2222, 0xCAFE, base.caller]))
+    for rich in (base.caller, D.MAIN):
+        bal = {a: 0 for a in accts}
+        bal[rich] = 1 << 128
+        add(D.Inputs(list(base.args), base.caller, base.origin, 0, bal, 0), "boundary-balance")
     # solver-found inputs (z3 as a search aid) under a wall-clock budget per scenario
     used = ctx.extra.setdefault("solver_wall_s", 0.0)
     total = SOLVER_TOTAL_S[0 if ctx.tier == "quick" else 1]
@@ -224,7 +240,7 @@ def choose_inputs(ctx, scn, sr, n_random, pool):
     return out
 
 
-def run(ctx, pid, features, n_scenarios, n_random_inputs, cfgs, malformed=0, pool=None, gen=None, corpus=True):
+def run(ctx, pid, features, n_scenarios, n_random_inputs, cfgs, malformed=0, pool=None, gen=None, corpus=True, corpus_as=None):
     """main loop; violations are reported under `pid` only for the kinds that belong to it (C01: soundness kinds,
     C02: uncovered inputs, C09: everything on call scenarios, C10: handled by its own module)."""
     from . import proggen
@@ -249,7 +265,7 @@ def run(ctx, pid, features, n_scenarios, n_random_inputs, cfgs, malformed=0, poo
     def report(prop, key, what, replay):
         if current["name"]:
             # directed scenario: the key names the scenario, so a recorded finding is identified by its specific input
-            if pid in current["props"]:
+            if (corpus_as or pid) in current["props"]:
                 ctx.violation(f"corpus:{current['name']}|{prop}|{key}", f"[{current['name']}] {what}", replay)
             return
         if prop == pid or pid == "C09":
@@ -259,7 +275,7 @@ def run(ctx, pid, features, n_scenarios, n_random_inputs, cfgs, malformed=0, poo
 
     from . import sevm_corpus
 
-    directed = [(n, s, c, pr) for n, s, c, pr in sevm_corpus.scenarios([pid])] if corpus else []
+    directed = [(n, s, c, pr) for n, s, c, pr in sevm_corpus.scenarios([corpus_as or pid])] if corpus else []
     for n, *_ in directed:
         ctx.count("corpus:" + n)
     scenarios = [s for _, s, _, _ in directed] + scenarios
@@ -283,7 +299,7 @@ def run(ctx, pid, features, n_scenarios, n_random_inputs, cfgs, malformed=0, poo
         if sr.escaped:
             ctx.count("escaped:" + sr.escaped.split(":")[0])
             if id(scn) in dmeta:
-                if pid in dmeta[id(scn)][2]:
+                if (corpus_as or pid) in dmeta[id(scn)][2]:
                     ctx.violation(f"corpus:{dmeta[id(scn)][0]}|C01|escaped:{sr.escaped.split(':')[0]}",
                                   f"[{dmeta[id(scn)][0]}] an internal exception escaped SEVM.run: {sr.escaped[:200]}",
                                   {"contracts": {hex(a): c.hex() for a, c in scn.contracts.items()}, "nargs": scn.nargs, "config": cfg})
